@@ -83,6 +83,63 @@ def gen_cases(rng, n):
     return cases
 
 
+def gen_mixin_cases(rng, n):
+    """the same call site evaluated several times with different bindings: `.m(@x){width: f(ARG(@x))}` called from
+    2-3 rules.  Returns list of (less_text, [(rule_index, model, spec)])"""
+    sheets = []
+    for i in range(n):
+        b = rng.choice(BUILTINS)
+        form = rng.choice(['@x', '@x + 1', '-(@x / 2)', '-(@x)', '(@x * 2)', '@x / 4', '-(@x + 0.5)'])
+        u = rng.choice(UNITS)
+        vals = []
+        while len(vals) < rng.choice([2, 3]):
+            v = grid_value(rng)
+            if v != 0 and v not in vals:
+                vals.append(v)
+        def arg_value(v):
+            return {'@x': v, '@x + 1': v + 1, '-(@x / 2)': -(v / 2), '-(@x)': -v, '(@x * 2)': v * 2, '@x / 4': v / 4,
+                    '-(@x + 0.5)': -(v + Fraction(1, 2))}[form]
+        if any(arg_value(v) == 0 for v in vals):
+            continue
+        less = '.m%d(@x) { width: %s(%s); }\n' % (i, b, form)
+        rows = []
+        for k, v in enumerate(vals):
+            less += '.r%d_%d { .m%d(%s%s); }\n' % (i, k, i, fmt_dec(v), u)
+            arg = coqrun.coq_str(fmt_dec(arg_value(v)) + u)
+            rows.append(('r%d_%d' % (i, k), '(call_builtin %s %s)' % (coqrun.coq_str(b), arg), '(spec_call %s %s)' % (coqrun.coq_str(b), arg)))
+        sheets.append((less, rows, b + ' in mixin ' + form))
+    return sheets
+
+
+def run_mixin_family(ctx, rng, n, out):
+    import re, os
+    sheets = gen_mixin_cases(rng, n)
+    with impl.Pool() as pool:
+        ans = pool.run([{'kind': 'compile', 'text': s[0], 'opts': {}} for s in sheets])
+    rows_m, rows_s, recs = [], [], []
+    for (less, rows, descr), a in zip(sheets, ans):
+        for rule, m, s in rows:
+            if a.get('r') == 'ok':
+                mm = re.search(r'^\.%s \{\n width: ?(.*?);\n\}$' % rule, a['css'], re.M)
+                aa = {'r': 'ok', 'css': mm.group(1)} if mm else {'r': 'escaped', 'type': 'missing rule', 'msg': a['css'][:200]}
+            else:
+                aa = a
+            rows_m.append(cmp_num(m, aa)); rows_s.append(cmp_num(s, aa))
+            recs.append({'input': {'less': less, 'rule': rule}, 'impl': aa, 'classes': [], 'descr': descr})
+    wd = os.path.join(ctx['scratch'], 'mix%d' % ctx.get('mult', 1))
+    bs, ds, es = coqrun.evaluate(rows_s, ['Spec.NumSpec', 'Model.NumLex'], wd, tag='s')
+    bm, dm, em = (coqrun.evaluate(rows_m, MODS, wd, tag='m') if ctx.get('model_usable', True) else ([], {}, []))
+    out['harness_errors'] += es + em
+    for i, rec in enumerate(recs):
+        if i in bs:
+            rec['spec'] = ds.get(i); out['spec_mismatch'].append(rec)
+        elif i in bm:
+            rec['model'] = dm.get(i); out['model_mismatch'].append(rec)
+    out['evaluations'] += len(recs)
+    out.setdefault('distribution', {})['call site re-evaluated in mixin (rules)'] = len(recs)
+    return len({r['input']['less'] for r in recs})
+
+
 def run(ctx):
     ctx = dict(ctx, spec_mods=SPEC_MODS)
     rng = random.Random(ctx['seed'] * 1000003 + 17)
@@ -119,11 +176,17 @@ def run(ctx):
     for c in cases:
         dist[c['descr']] = dist.get(c['descr'], 0) + 1
     out['distribution'] = dist
+    extra = run_mixin_family(ctx, rng, max(40, n // 6), out)
+    out['distinct_nontrivial'] += extra
     return out
 
 
 def replay(case):
     inp = case['input']
+    if 'less' in inp:
+        with impl.Pool(1) as pool:
+            a = pool.run([{'kind': 'compile', 'text': inp['less'], 'opts': {}}])[0]
+        return {'input': inp['less'], 'rule': inp.get('rule'), 'impl_now': a, 'spec_expected': case.get('spec'), 'still_fails': None}
     text = inp.get('prelude', '') + '.c0{%s:%s}\n' % (inp.get('prop', 'width'), inp['expr'])
     with impl.Pool(1) as pool:
         a = pool.run([{'kind': 'compile', 'text': text, 'opts': {}}])[0]
